@@ -2,6 +2,7 @@
 #define MAIN_H
 
 #include <stdio.h>
+#include <stdlib.h>
 #include <string.h>
 #include <assert.h>
 #include "utf8_decode.h"
@@ -44,13 +45,23 @@ sanitize (const char *str, size_t length)
 const char *
 sanitize_utf8 (const char *text, size_t length)
 {
-#define TEXT_SIZE 2048
-
     int c1 = 0, c2 = 0; /* characters */
     int p1 = 0, p2 = 0; /* byte position of characters */
-    int pos = 0;        /* position in sanitized array */
-    static char sanitized[TEXT_SIZE];
+    size_t pos = 0;     /* position in sanitized array */
+    static char *sanitized = NULL; /* grows with the longest line seen */
+    static size_t text_size = 0;
     char buf[32];
+
+    /* room for the whole line and some escapes; more output is truncated */
+    if (length * 2 + 32 > text_size) {
+        char *grown = realloc (sanitized, length * 2 + 32);
+
+        if (grown == NULL)
+            return "";
+
+        sanitized = grown;
+        text_size = length * 2 + 32;
+    }
 
 
 /* html data contain some unneccessary characters:
@@ -61,13 +72,13 @@ sanitize_utf8 (const char *text, size_t length)
     if ((c) < 0x0020 || (c) == 0x007f) { \
         sprintf (buf, "0x%02x", c); \
         size_t x = strlen (buf); \
-        if (pos + x >= TEXT_SIZE) /* c may be UTF8_ERROR: "0xfffffffe" */ \
+        if (pos + x >= text_size) /* c may be UTF8_ERROR: "0xfffffffe" */ \
             goto done; \
         memcpy (sanitized + pos, buf, x); \
         pos += x; \
     } \
     else { \
-        if (pos + (l) >= TEXT_SIZE) /* the output is truncated */ \
+        if (pos + (l) >= text_size) /* the output is truncated */ \
             goto done; \
         memcpy (sanitized + pos, text + p, l); \
         pos += l; \
